@@ -66,6 +66,12 @@ func cmpTruth(op token.Token, ord int) (bool, bool) {
 // orderTable returns, per case, the boolean the function returns (ok=false when no path or
 // the result cannot be evaluated).
 func orderTable(c *core.Ctx, fn *ssa.Function, pairs []orderPair, flags []flagAtom, expected func(orderCase) bool) (mismatches []string, evaluated int, undecided []string) {
+	return orderTableF(c, fn, pairs, flags, nil, expected)
+}
+
+// orderTableF: as orderTable, with a feasibility filter on the enumerated cases (e.g. an empty
+// byte string is the smallest one).
+func orderTableF(c *core.Ctx, fn *ssa.Function, pairs []orderPair, flags []flagAtom, feasible func(orderCase) bool, expected func(orderCase) bool) (mismatches []string, evaluated int, undecided []string) {
 	pv := c.P.Prov()
 	descOf := func(v ssa.Value) string { return strings.Join(pv.Desc(v), "|") }
 	// truth of a (Not-stripped) boolean value under a case; known=false if it is not one of the inputs
@@ -84,7 +90,58 @@ func orderTable(c *core.Ctx, fn *ssa.Function, pairs []orderPair, flags []flagAt
 				return oc.Flag[i] == pol, true
 			}
 		}
+		// bytes.Equal(a, b)
+		if cl, ok := v.(*ssa.Call); ok && cl.Call.StaticCallee() != nil && cl.Call.StaticCallee().String() == "bytes.Equal" {
+			dx, dy := descOf(cl.Call.Args[0]), descOf(cl.Call.Args[1])
+			for i, p := range pairs {
+				if (glob(p.X, dx) && glob(p.Y, dy)) || (glob(p.X, dy) && glob(p.Y, dx)) {
+					return oc.Ord[i] == 0, true
+				}
+			}
+		}
 		if b, ok := v.(*ssa.BinOp); ok {
+			// bytes.Compare(a, b) <op> k   /   kv.CmpKey(a, b) <op> k
+			cmpCall := func(x ssa.Value) (*ssa.Call, bool) {
+				cl, ok := core.Strip(x).(*ssa.Call)
+				if !ok || cl.Call.StaticCallee() == nil {
+					return nil, false
+				}
+				n := cl.Call.StaticCallee().String()
+				return cl, n == "bytes.Compare" || strings.HasSuffix(n, "/kv.CmpKey")
+			}
+			evalCmp := func(cl *ssa.Call, k int64, op token.Token) (bool, bool) {
+				dx, dy := descOf(cl.Call.Args[0]), descOf(cl.Call.Args[1])
+				for i, p := range pairs {
+					ord, hit := 0, false
+					if glob(p.X, dx) && glob(p.Y, dy) {
+						ord, hit = oc.Ord[i], true
+					} else if glob(p.X, dy) && glob(p.Y, dx) {
+						ord, hit = -oc.Ord[i], true
+					}
+					if hit {
+						d := 0
+						switch {
+						case int64(ord) < k:
+							d = -1
+						case int64(ord) > k:
+							d = 1
+						}
+						return cmpTruth(op, d)
+					}
+				}
+				return false, false
+			}
+			if cl, ok := cmpCall(b.X); ok {
+				if cst, ok := b.Y.(*ssa.Const); ok && cst.Value != nil {
+					return evalCmp(cl, cst.Int64(), b.Op)
+				}
+			}
+			if cl, ok := cmpCall(b.Y); ok {
+				if cst, ok := b.X.(*ssa.Const); ok && cst.Value != nil {
+					flip := map[token.Token]token.Token{token.LSS: token.GTR, token.GTR: token.LSS, token.LEQ: token.GEQ, token.GEQ: token.LEQ, token.EQL: token.EQL, token.NEQ: token.NEQ}
+					return evalCmp(cl, cst.Int64(), flip[b.Op])
+				}
+			}
 			dx, dy := descOf(b.X), descOf(b.Y)
 			for i, p := range pairs {
 				if glob(p.X, dx) && glob(p.Y, dy) {
@@ -117,6 +174,9 @@ func orderTable(c *core.Ctx, fn *ssa.Function, pairs []orderPair, flags []flagAt
 	gen(0, nil)
 	for _, oc := range cases {
 		oc := oc
+		if feasible != nil && !feasible(oc) {
+			continue
+		}
 		sawUnknown := ""
 		q := &core.Q{Fn: fn, NoEdge: func(e core.Edge) bool {
 			v, neg := e.Cond()
@@ -154,4 +214,25 @@ func orderTable(c *core.Ctx, fn *ssa.Function, pairs []orderPair, flags []flagAt
 		}
 	}
 	return
+}
+
+// emptyFlag: flag atom "len(X) == 0" for operands whose provenance matches the glob.
+func emptyFlag(c *core.Ctx, name, descGlob string) flagAtom {
+	pv := c.P.Prov()
+	return flagAtom{name, core.PEmpty(func(v ssa.Value) bool {
+		return glob(descGlob, strings.Join(pv.Desc(v), "|"))
+	})}
+}
+
+// reportTable turns an order-table result into obligations.
+func reportTable(a *A, key, pos, spec string, mism []string, n int, und []string) {
+	for _, m := range mism {
+		a.violAt(key, pos, spec+": "+m)
+	}
+	for _, u := range und {
+		a.undAt(key, pos, u)
+	}
+	if len(mism) == 0 && len(und) == 0 {
+		a.okAt(key, pos, fmt.Sprintf("%d orderings evaluated: %s", n, spec))
+	}
 }
